@@ -155,6 +155,11 @@ row_impl!(1; A 0);
 row_impl!(2; A 0, B 1);
 row_impl!(3; A 0, B 1, C 2);
 row_impl!(4; A 0, B 1, C 2, D 3);
+row_impl!(0;);
+row_impl!(5; A 0, B 1, C 2, D 3, E 4);
+row_impl!(6; A 0, B 1, C 2, D 3, E 4, F 5);
+row_impl!(7; A 0, B 1, C 2, D 3, E 4, F 5, G 6);
+row_impl!(8; A 0, B 1, C 2, D 3, E 4, F 5, G 6, H 7);
 
 pub fn parse_rows<R: Row>(xs: &[Sexp]) -> Option<Vec<R>> { xs.iter().map(R::parse).collect() }
 
